@@ -5,6 +5,7 @@ import (
 	"go/ast"
 	"go/token"
 	"go/types"
+	"math/bits"
 
 	"golang.org/x/tools/go/packages"
 )
@@ -23,6 +24,7 @@ func checkC07(c *Ctx, r *Report) {
 	checkQRModes(c, r)
 	checkQRFunctionPattern(c, r)
 	checkQRFormatPlacement(c, r)
+	checkQRInfoReadPositions(c, r)
 	checkQRPadBytes(c, r)
 	checkQRBlockSizing(c, r, rows)
 	checkQRVersionPlacement(c, r)
@@ -89,11 +91,86 @@ func checkQRAlignEncoder(c *Ctx, r *Report) {
 
 // ---- BCH code words ----
 
+// the encoder computes its BCH remainders at run time: calculateBCHCode folded (constant propagation with bounded
+// unrolling of its division loop) on every version 7..40 and every 5-bit format value
+func checkQRBCHEncoder(c *Ctx, r *Report) {
+	r.Rule("T-BCHENC", "the encoder's calculateBCHCode(value, generator) yields, for every version 7..40 with the version generator and every format value 0..31 with the format generator, the BCH remainder recomputed independently (12 resp. 10 bits)", 66)
+	fd, p := c.funcDeclOf("qrcode/encoder", "calculateBCHCode")
+	if fd == nil {
+		r.AnchorLost("T-BCHENC", "qrcode/encoder.calculateBCHCode", "function not found")
+		return
+	}
+	r.Analysed("qrcode/encoder.calculateBCHCode")
+	hooks := &rpf{unroll: 64, callHook: func(rr *rpf, call *ast.CallExpr, callee types.Object) (*Val, bool) {
+		if f, ok := callee.(*types.Func); ok && f.Pkg() != nil && f.Pkg().Path() == "math/bits" {
+			v := rr.expr(call.Args[0])
+			if !v.isInt() {
+				rpfFail("math/bits call on a non-integer")
+			}
+			switch f.Name() {
+			case "LeadingZeros32":
+				return vint(int64(bits.LeadingZeros32(uint32(v.I)))), true
+			case "Len32", "Len":
+				return vint(int64(bits.Len32(uint32(v.I)))), true
+			}
+		}
+		return errCtorHook(rr, call, callee)
+	}}
+	verPoly, ok1 := constValIn(c, "qrcode/encoder", "matrixUtil_VERSION_INFO_POLY")
+	fmtPoly, ok2 := constValIn(c, "qrcode/encoder", "matrixUtil_TYPE_INFO_POLY")
+	if !ok1 || !ok2 {
+		r.AnchorLost("T-BCHENC", "qrcode/encoder generator constants", "matrixUtil_VERSION_INFO_POLY / matrixUtil_TYPE_INFO_POLY not found")
+		return
+	}
+	for v := int64(7); v <= 40; v++ {
+		key := fmt.Sprintf("qrcode/encoder.calculateBCHCode(version %d)", v)
+		res, err := c.rpfCall(fd, p, []*Val{vint(v), vint(verPoly)}, hooks)
+		want := int64(refQRVersionWord(int(v)) & 0xFFF)
+		switch {
+		case err != nil:
+			r.Undecided("T-BCHENC", key, c.pos(fd.Pos()), err.Error())
+		case len(res) != 2 || res[0].K != VInt || res[1].K != VNil || res[0].I != want:
+			r.Fail("T-BCHENC", key, c.pos(fd.Pos()), "violation", fmt.Sprintf("remainder %s, BCH(18,6) gives 0x%03X: the version information of version %d symbols would be wrong", valString(res[0]), want, v))
+		default:
+			r.Pass("T-BCHENC", key, c.pos(fd.Pos()), "")
+		}
+	}
+	for t := int64(0); t < 32; t++ {
+		key := fmt.Sprintf("qrcode/encoder.calculateBCHCode(format %d)", t)
+		res, err := c.rpfCall(fd, p, []*Val{vint(t), vint(fmtPoly)}, hooks)
+		want := int64((refQRFormatWord(int(t)) ^ 0x5412) & 0x3FF)
+		switch {
+		case err != nil:
+			r.Undecided("T-BCHENC", key, c.pos(fd.Pos()), err.Error())
+		case len(res) != 2 || res[0].K != VInt || res[1].K != VNil || res[0].I != want:
+			r.Fail("T-BCHENC", key, c.pos(fd.Pos()), "violation", fmt.Sprintf("remainder %s, BCH(15,5) gives 0x%03X", valString(res[0]), want))
+		default:
+			r.Pass("T-BCHENC", key, c.pos(fd.Pos()), "")
+		}
+	}
+}
+
+func constValIn(c *Ctx, rel, name string) (int64, bool) {
+	p := c.pkg(rel)
+	if p == nil {
+		return 0, false
+	}
+	if v, ok := constVal(p, name); ok {
+		return v, true
+	}
+	// a package-level variable with a constant initialiser (never written after init: rule W-STORE under C18)
+	if init, ip := c.varInit(rel, name); init != nil {
+		return constInt(ip, init)
+	}
+	return 0, false
+}
+
 func checkQRBCHWords(c *Ctx, r *Report) {
 	r.Rule("T-VERWORDS", "VERSION_DECODE_INFO[i] equals the BCH(18,6) code word of version i+7 recomputed with generator 0x1F25", 34)
 	r.Rule("T-FMTWORDS", "formatInfoDecodeLookup[i] = {BCH(15,5)(i) xor 0x5412, i} recomputed with generator 0x537", 32)
 	r.Rule("T-BCHCONST", "BCH generator and mask constants of encoder and decoder (0x537, 0x5412, 0x1F25) and the shape of calculateBCHCode's uses", 6)
 
+	checkQRBCHEncoder(c, r)
 	// version words
 	if init, p := c.varInit("qrcode/decoder", "VERSION_DECODE_INFO"); init != nil {
 		r.Analysed("qrcode/decoder.VERSION_DECODE_INFO")
